@@ -2,6 +2,7 @@ package main
 
 import (
 	"fmt"
+	"go/token"
 	"go/types"
 	"sort"
 	"strings"
@@ -132,6 +133,58 @@ func inlineWith(p *Program, h *ssa.Function, args []*term) []*term {
 	return out
 }
 
+// recordResultFields: h is a single-block function whose only result is a record built in a literal
+// (stores into the fields of one local, then the local is returned by value): the terms of its int32
+// fields over the given arguments, in field order.
+func recordResultFields(p *Program, h *ssa.Function, args []*term) []*term {
+	if len(h.Blocks) != 1 || len(args) != len(h.Params) {
+		return nil
+	}
+	ret, ok := lastInstr(h.Blocks[0]).(*ssa.Return)
+	if !ok || len(ret.Results) != 1 {
+		return nil
+	}
+	ld, ok := ret.Results[0].(*ssa.UnOp)
+	if !ok || ld.Op != token.MUL {
+		return nil
+	}
+	lit, ok := ld.X.(*ssa.Alloc)
+	if !ok {
+		return nil
+	}
+	st, ok := lit.Type().Underlying().(*types.Pointer).Elem().Underlying().(*types.Struct)
+	if !ok {
+		return nil
+	}
+	sub := newEval(p)
+	for i, prm := range h.Params {
+		sub.env[prm] = args[i]
+	}
+	vals := map[int]*term{}
+	for _, in := range h.Blocks[0].Instrs {
+		switch x := in.(type) {
+		case *ssa.Store:
+			fa, ok := x.Addr.(*ssa.FieldAddr)
+			if !ok || fa.X != ssa.Value(lit) {
+				return nil
+			}
+			if _, dup := vals[fa.Field]; dup {
+				return nil
+			}
+			vals[fa.Field] = sub.eval(x.Val)
+		case *ssa.MapUpdate, *ssa.Panic, *ssa.Defer, *ssa.Go:
+			return nil
+		}
+	}
+	var out []*term
+	for fi := 0; fi < st.NumFields(); fi++ {
+		if t, ok := vals[fi]; ok && types.Identical(st.Field(fi).Type(), types.Typ[types.Int32]) {
+			out = append(out, t)
+		}
+	}
+	return out
+}
+
 func checkC14(p *Program, r *Report) {
 	r.Explanation = "Decided for every query string and every trie, on the guarded summaries (E11) of the accessors with helpers of package trie expanded: (found) each GetI8/16/32/64 and Get look the key up with the same id function; every not-found answer is given under exactly the condition id == -1 and is (0,false), every found answer under id != -1 and nothing else — so the found flags are identical to Get's; (ordinal) the byte offset of the value is W times the leaf ordinal that a function on Get's own value path computes from that id; (layout) the value returned normalises to the little-endian assembly sum over j<W of byte[W*ordinal+j]*2^(8j) of Leaves.Bytes with W = Sizeof(intW), each byte once and no byte outside the element read, with no bits shifted out of a narrower type, and W is the constant size of the matching encoder encode.I{8W}."
 	r.NotCovered = "That Leaves of an integer-valued trie is dense and fixed-size (true by newVLenArray for non-empty fixed-width values, a data fact)."
@@ -243,6 +296,12 @@ func checkC14(p *Program, r *Report) {
 			continue
 		}
 		rs := h.Signature.Results()
+		if rs.Len() == 1 {
+			// a record constructor (leafRefOf(id) leafRef{ordinal, typeBit}): each int32 field is a candidate
+			for _, t := range recordResultFields(p, h, []*term{S("ST"), idT}) {
+				cands = append(cands, cand{h, t})
+			}
+		}
 		if rs.Len() == 0 || !types.Identical(rs.At(0).Type(), types.Typ[types.Int32]) {
 			continue
 		}
@@ -322,6 +381,12 @@ func checkC14(p *Program, r *Report) {
 			r.Unk(name+" width = encode."+encName+" size", "", "encoder not found")
 		}
 	}
+	// Get decodes with the trie's encoder: the comparison with Get presupposes that codec's round trip
+	checkCodecsAs(p, r, "C14")
+	// "including loaded tries": a legacy presence bitmap assembled by hand must not trim its last word
+	// with mask(n&63) unguarded, or the leaf ordinals of the getters and of Get shift together with it
+	r.Explanation += " (trim) bitmap words assembled by hand under Unmarshal are not trimmed with an unguarded mask(n&63)."
+	checkMaskTrim(p, r, "C14.trim", underUnmarshal(p))
 }
 
 // abbreviate shortens long terms for messages by replacing the ordinal.
